@@ -321,10 +321,10 @@ fn main() {
         for (oi, o1) in OPS.iter().enumerate() {
             for b1 in GRID {
                 pats.push(format!("p{}{}", o1.text(), b1));
-                for o2 in OPS.iter() {
+                for (o2i, o2) in OPS.iter().enumerate() {
                     for (bi, b2) in GRID.iter().enumerate() {
-                        // quick tier: every second (operator, bound) combination for the second bound
-                        if !run.thorough() && (oi + bi) % 2 == 1 {
+                        // quick tier: every second (first bound, second operator, second bound) combination
+                        if !run.thorough() && (oi + o2i + bi) % 2 == 1 {
                             continue;
                         }
                         pats.push(format!("p{}{}{}{}", o1.text(), b1, o2.text(), b2));
